@@ -110,7 +110,7 @@ def _walk_leaves(trees):
 
 def gen_docs(run):
     rng = run.rng
-    n = 2000 if run.tier == "quick" else 40000
+    n = 5000 if run.tier == "quick" else 40000
     docs = []
     for i in range(n):
         g = G.Gen(rng, rng.choice([1, 2, 4, 8] if run.tier == "quick" else [1, 2, 4, 8, 16]))
